@@ -9,6 +9,7 @@ CONSTANTS
   Tos = {"victimBare", "victimFull", "domain", "absent"}
   Stanzas <- MidStanzas
   MaxPending = 2
+  MaxRetry = 0
   MaxHist = 99
 VIEW GenView
 ACTION_CONSTRAINT EmitNoReauth
